@@ -269,29 +269,32 @@ pub fn render_type(td: &TypeDef, m: &Module) -> String {
         }
     }
     let g = generics_decl(td, m);
+    // an item with a const parameter and no type parameter carries a where clause of its own (TS-only
+    // modules): every impl for the item has to repeat it
+    let w = if !m.serde && td.params.is_empty() && !td.consts.is_empty() { format!(" where [u8; {}]: Default", td.consts[0]) } else { String::new() };
     match &td.body {
-        Body::Unit => out.push_str(&format!("    pub struct {}{g};\n", td.ident)),
+        Body::Unit => out.push_str(&format!("    pub struct {}{g}{w};\n", td.ident)),
         Body::Newtype(f) => {
             out.push_str(&format!("    pub struct {}{g}(\n", td.ident));
             render_field(f, m, "        ", &mut out);
-            out.push_str("    );\n");
+            out.push_str(&format!("    ){w};\n"));
         }
         Body::Tuple(fs) => {
             out.push_str(&format!("    pub struct {}{g}(\n", td.ident));
             for f in fs {
                 render_field(f, m, "        ", &mut out);
             }
-            out.push_str("    );\n");
+            out.push_str(&format!("    ){w};\n"));
         }
         Body::Named(fs) => {
-            out.push_str(&format!("    pub struct {}{g} {{\n", td.ident));
+            out.push_str(&format!("    pub struct {}{g}{w} {{\n", td.ident));
             for f in fs {
                 render_field(f, m, "        ", &mut out);
             }
             out.push_str("    }\n");
         }
         Body::Enum(vs) => {
-            out.push_str(&format!("    pub enum {}{g} {{\n", td.ident));
+            out.push_str(&format!("    pub enum {}{g}{w} {{\n", td.ident));
             for v in vs {
                 render_doc(&v.docs, "        ", &mut out);
                 let mut serde: Vec<String> = vec![];
